@@ -18,6 +18,11 @@ def optList : Option Nat → List Nat
 def delayS : RS Nat :=
   { σ := Option Nat, s := none, step := fun s x => (some x, optList s), drain := optList }
 
+/-- passes everything on and synthesizes one new event when its context is drained (as the real
+    counter / flow stages do) -/
+def genS : RS Nat :=
+  { σ := Unit, s := (), step := fun _ x => ((), [x]), drain := fun _ => [9000] }
+
 /-- the behaviours the Python harness registers as real callbacks + contexts -/
 def stageOf : String → Option (BStage Nat)
   | "pass" => some (.priv (unitS fun x => [x]))
@@ -28,6 +33,7 @@ def stageOf : String → Option (BStage Nat)
   | "hold" => some (.priv holdS)
   | "rev" => some (.priv revS)
   | "delay" => some (.priv delayS)
+  | "gen" => some (.priv genS)
   | "barrier" => some .barrier
   | _ => none
 
